@@ -1,4 +1,4 @@
-\* BoundedBatchPool AS IT IS for CancelRunningOnClose only: TLC finds F5 - invariant C37_CloseWaits is violated.
+\* BoundedBatchPool AS IT IS for CancelRunningOnClose only: TLC finds the open finding F5 - invariant C37_CloseWaits is violated.
 SPECIFICATION Spec
 CONSTANTS
   NP = 2
@@ -7,8 +7,7 @@ CONSTANTS
   Workers = 1
   MaxItems = 1
   MaxWait = TRUE
-  CancelAcceptedSet = {FALSE}
-  CancelRunningSet = {TRUE}
+  CloseModes <- ModeCancelRunning
   FixF5 = FALSE
   FixF6 = TRUE
 INVARIANTS TypeOK C37_AtMostOnce C37_RejectedNeverRuns C37_OnlyAdmittedRuns C37_CancelOnlyIfConfigured C37_CancelOnlyAfterClose C37_CloseWaits SlotsCoverQueue
